@@ -95,6 +95,16 @@ Proof.
 Qed.
 Print Assumptions C12_name_collision_refuted.
 
+(* Why run_games needed its deep copy on the pinned tree (and why it no longer carries the
+   results after the repair, C10_frame): pinned in-place scan, no copy - the unpruned run of
+   figure 5.5 raises "Missing transitions" although the game alone solves unpruned. *)
+Theorem C12_copy_matters_for_orig_refuted :
+  nth 1 (snd (solve_seq_H_orig qops Fig55.fuel Fig55.hg0 Fig55.st0 None [(true, true); (false, true)])) OutOfFuel
+    = ValueErr "Missing transitions"
+  /\ is_ok (solve_fuel qops Fig55.fuel Fig55.g false) = true.
+Proof. exact K2.copy_matters_for_orig. Qed.
+Print Assumptions C12_copy_matters_for_orig_refuted.
+
 (* non-vacuity: three independent names, a game without solution between two solvable ones *)
 Example C12_example :
   names_independent K2.gs3 /\
